@@ -116,8 +116,88 @@ def program_sets(tier):
             C.odd_set(tier)] + C.core3_sets(tier)
 
 
+INSIDE_SRC = '''
+from ptera import tooled
+
+HOOK = [None]
+
+def k(x):
+    a = x + 1
+    if HOOK[0] is not None:
+        HOOK[0]()
+    b = a + 1
+    return b
+
+@tooled
+def f(x):
+    v = x + 1
+    return v
+'''
+
+
+def check_inside(part):
+    """'The most recently activated override wins' when overrides are entered / left by code that runs
+    inside an instrumented call: every combination of where the older override A (:= 200) and the newer
+    one B (:= 400) are entered, where B is left, and whether the surrounding call is instrumented."""
+    from ptera import Overlay, probing
+    from ptera.selector import select
+
+    for k_probed in (False, True):
+        for a_in, b_in, b_out_in in itertools.product((False, True), repeat=3):
+            ns = world.make_module(INSIDE_SRC)
+            f, k, hook = ns["f"], ns["k"], ns["HOOK"]
+            sel = select("f > v", env={"f": f})
+            A = Overlay.tweaking({sel: 200})
+            B = Overlay.tweaking({sel: 400})
+
+            def at(inside, action):
+                if inside:
+                    hook[0] = action
+                    try:
+                        k(0)
+                    finally:
+                        hook[0] = None
+                else:
+                    action()
+
+            part["cases"] += 1
+            part["evaluations"] += 1
+            part["steps"] += 6
+            part["nontrivial"] += 1
+            kp = probing("k > a", env={"k": k}) if k_probed else None
+            got = []
+            try:
+                if kp:
+                    kp.__enter__()
+                at(a_in, A.__enter__)
+                got.append(f(1))
+                at(b_in, B.__enter__)
+                got.append(f(1))
+                at(b_out_in, lambda: B.__exit__(None, None, None))
+                got.append(f(1))
+                A.__exit__(None, None, None)
+                got.append(f(1))
+            except BaseException as e:
+                got.append(f"{type(e).__name__}: {e}")
+            finally:
+                if kp:
+                    try:
+                        kp.__exit__(None, None, None)
+                    except BaseException:
+                        pass
+                world.reset_context()
+            part["outcomes"][f"inside:{k_probed}"] += 1
+            want = [200, 400, 200, 2]
+            if got != want:
+                where = lambda b: "inside a call of k" if b else "at top level"
+                part["violations"].append(violation(
+                    PROP, "inside-activation", {"inside": [k_probed, a_in, b_in, b_out_in]},
+                    f"override A (f > v := 200) entered {where(a_in)}, B (:= 400) entered {where(b_in)} and left {where(b_out_in)}, "
+                    f"k {'probed' if k_probed else 'not probed'}: f(1) after each step should be {want!r}, was {got!r}", tags=["inside"]))
+
+
 def units(tier):
-    out = [("paths", i) for i in range(len(PATH_PAIRS))]
+    out = [("paths", i) for i in range(len(PATH_PAIRS))] + [("inside",)]
     for name, kw in program_sets(tier):
         n = C.count_programs(tier, **kw)
         out += [(name, lo, min(n, lo + CHUNK)) for lo in range(0, n, CHUNK)]
@@ -478,6 +558,9 @@ def work(unit, tier):
     if unit[0] == "paths":
         check_paths(unit[1], tier, part)
         return part
+    if unit[0] == "inside":
+        check_inside(part)
+        return part
     name, lo, hi = unit
     kw = dict(program_sets(tier))[name]
     for prog in C.programs_slice(tier, lo, hi, **kw):
@@ -486,6 +569,11 @@ def work(unit, tier):
 
 
 def replay(case):
+    if "inside" in case:
+        part = new_partial()
+        check_inside(part)
+        bad = [v for v in part["violations"] if v["case"] == case]
+        return (True, bad[0]["detail"]) if bad else (False, "the most recently activated override wins")
     if "paths" in case:
         part = new_partial()
         check_paths(PATH_PAIRS.index(tuple(case["paths"])), "quick", part)
